@@ -27,7 +27,7 @@ Print Assumptions c06_nak_len_bound.
    the NAK PDUs queued request, taken together, (0,0) iff metadata is missing, then exactly the tracked
    ranges; scope (0, EOF size); every PDU within the packet length *)
 Theorem c06_deferred_issue : forall s r eos maxn,
-  p_deferred (d_p s) = true -> p_rcfg (d_p s) = Some r -> p_file_size_eof (d_p s) = Some eos ->
+  p_deferred (d_p s) = true -> p_disp (d_p s) <> DISP_CANCELED -> p_rcfg (d_p s) = Some r -> p_file_size_eof (d_p s) = Some eos ->
   (p_tracker (d_p s) <> [] \/ p_md_missing (d_p s) = true) ->
   (match p_proc_timer (d_p s) with
    | None => True
@@ -54,13 +54,24 @@ Print Assumptions c06_deferred_wait.
 
 (* when nothing is missing no NAK is sent: the checksum is verified and the transfer proceeds to completion *)
 Theorem c06_nothing_missing : forall s r eos s1 b,
-  p_deferred (d_p s) = true -> p_rcfg (d_p s) = Some r -> p_file_size_eof (d_p s) = Some eos ->
+  p_deferred (d_p s) = true -> p_disp (d_p s) <> DISP_CANCELED ->
+  p_rcfg (d_p s) = Some r -> p_file_size_eof (d_p s) = Some eos ->
   p_tracker (d_p s) = [] -> p_md_missing (d_p s) = false ->
   checksum_verify s = (s1, Ok b) ->
   exists s', deferred_lost_segment_handling s = (s', Ok tt) /\
     d_queue s' = d_queue s1 /\ d_step s' = DS_TRANSFER_COMPLETION /\ p_deferred (d_p s') = false.
 Proof. exact nothing_missing. Qed.
 Print Assumptions c06_nothing_missing.
+
+(* F35 repair: a cancelled transaction (a fault declared while the PDU of the same call was handled, with a handler that
+   cancels) is left alone by the deferred procedure: nothing is requested, the checksum is not verified, the step and the
+   cancel condition stand.  (Before the repair the procedure went on as in c06_nothing_missing: it verified the checksum,
+   replaced the cancel condition by No Error / Data Complete and the transaction was reported successful.) *)
+Theorem c06_deferred_cancelled_does_nothing : forall s,
+  p_deferred (d_p s) = true -> p_disp (d_p s) = DISP_CANCELED ->
+  deferred_lost_segment_handling s = (s, Ok tt).
+Proof. exact deferred_cancelled_does_nothing. Qed.
+Print Assumptions c06_deferred_cancelled_does_nothing.
 
 (* gap detection on arrival of a File Data PDU (acknowledged mode) *)
 Theorem c06_in_order_no_request : forall s off len,
